@@ -33,7 +33,8 @@ func init() {
 		},
 		Run: run,
 		Floors: func(tier string) map[string]int64 {
-			return map[string]int64{"proofs_verified": 1000, "proof_tamperings": 2000, "reopens": 100, "permuted_rebuilds": 1000, "secure_tries": 100, "copies_verified": 300, "proofs_with_pending_writes_verified": 2000}
+			return map[string]int64{"proofs_verified": 1000, "proof_tamperings": 2000, "reopens": 100, "permuted_rebuilds": 1000, "secure_tries": 100, "copies_verified": 300, "proofs_with_pending_writes_verified": 2000,
+				"gc_histories": 250, "gc_equal_consecutive_roots": 150, "gc_states_dereferenced": 1200, "gc_reads_of_referenced_roots": 20000}
 		},
 		PanicIsViolation: true,
 		Init:             core.QuietLogs,
@@ -165,6 +166,12 @@ func buildRoot(secure bool, keys []string, content map[string][]byte, detour *rn
 }
 
 func run(c *core.Ctx) {
+	if c.Index%5 == 4 {
+		gcLane(c, c.Rng.Split())
+		if c.Violated() {
+			return
+		}
+	}
 	r := c.Rng
 	secure := r.Chance(0.35)
 	limit := uint16([]int{0, 0, 1, 2, 120}[r.Intn(5)])
